@@ -229,6 +229,10 @@ class C11Monitor(explore.Monitor):
     except Exception as ex:
       st["would"] = None
     st["pre"] = eng.snapshot(e) if st["would"] else None
+    # the pre-state of bundles that ADD records is kept for root-cause triage (a dangling reference
+    # that becomes live)
+    st["pre_triage"] = eng.snapshot(e) if any(
+        isinstance(a, list) and a and a[0] in ("AddRecord", "BulkAddRecord") for a in bundle) else None
 
   def after(self, st, e, bundle, group, exc):
     if st.get("tainted"): return []     # a known asymmetry persists: nothing new can be learnt
@@ -245,6 +249,8 @@ class C11Monitor(explore.Monitor):
     if exc is None:
       ST["checked"] += 1
       fails.extend(check_symmetric(e))
+      for clause, d in fails:
+        if clause == "C11.symmetric": d["root"] = symmetric_root_cause(st.get("pre_triage") or st.get("pre"), e, bundle, d)
     if not fails: return []
     _flush()
     for clause, d in fails:
@@ -261,6 +267,8 @@ class C11Monitor(explore.Monitor):
     return []
 
   def classify(self, clause, detail, bundle, history):
+    if clause == "C11.symmetric" and detail.get("root"):
+      return "symmetric:" + detail["root"]
     if clause == "C11.symmetric" and any(
         a[0] == "BulkUpdateRecord" and isinstance(a[2], list) and len(set(a[2])) != len(a[2])
         and any(c == detail.get("pair", [None] * 5)[i] for c in a[3] for i in (1, 4))
@@ -270,6 +278,46 @@ class C11Monitor(explore.Monitor):
     p = detail.get("pair") or (detail.get("column", []) + detail.get("reverse", []))
     kinds = "/".join(str(x).split(":")[0] for x in p if isinstance(x, str) and x.startswith("Ref"))
     return "%s:%s after %s" % (clause.split(".", 1)[1], kinds, acts)
+
+
+def _ids_of(cell):
+  """row ids in a normalised snapshot cell (Ref: ('n', id); RefList: ('l', 'L', ('n', id), ...))."""
+  if isinstance(cell, tuple) and cell[:1] == ("n",): return [cell[1]]
+  if isinstance(cell, tuple) and cell[:2] == ("l", "L"):
+    return [x[1] for x in cell[2:] if isinstance(x, tuple) and x[:1] == ("n",)]
+  return []
+
+
+def symmetric_root_cause(pre, e, bundle, d):
+  """Recognisable root causes of an asymmetric pair (None when it is none of them):
+  - one action writes BOTH columns of a self-referential pair (the two values given for the row can
+    contradict each other; the engine applies both);
+  - a reference that was DANGLING before the bundle (it named a row id that did not exist - a
+    supported state) becomes live because the bundle adds a row with that id; the reverse column of
+    the new row is not derived from it."""
+  try:
+    ta, ca, _ta, tb, cb, _tb = d["pair"]
+    for a in bundle or []:
+      if len(a) > 3 and isinstance(a[3], dict) and a[1] == ta == tb and ca in a[3] and cb in a[3] and \
+          a[0] in ("UpdateRecord", "BulkUpdateRecord", "AddRecord", "BulkAddRecord"):
+        return "both-columns-of-a-self-referential-pair-written-by-one-action"
+    if pre is None: return None
+    # which side lacks the back-reference, and is that row new while the forward cell is old?
+    if d.get("a_refers_to_b") and not d.get("b_refers_to_a"):
+      src_t, src_c, src_row, dst_t, dst_row = ta, ca, d["a"], tb, d["b"]
+    elif d.get("b_refers_to_a") and not d.get("a_refers_to_b"):
+      src_t, src_c, src_row, dst_t, dst_row = tb, cb, d["b"], ta, d["a"]
+    else:
+      return None
+    if dst_t in pre and src_t in pre and dst_row not in pre[dst_t][0] and src_row in pre[src_t][0]:
+      rows, cols = pre[src_t]
+      cell = cols.get(src_c, ())[list(rows).index(src_row)] if src_c in cols else None
+      if dst_row in _ids_of(cell) and any(a[0] in ("AddRecord", "BulkAddRecord") and a[1] == dst_t
+                                           for a in bundle or []):
+        return "dangling-reference-becomes-live-when-its-row-is-added"
+  except Exception:
+    pass
+  return None
 
 
 ST = {"checked": 0, "unique_applicable": 0, "unique_conflicts": 0}
